@@ -180,6 +180,41 @@ pub fn parse(pasted: &[PastedLine]) -> RefProgram {
         }
         p.instrs.push(RefInstr { pasted: pi, file: pl.file.clone(), line: pl.line, flow, mnemonic: mn, operands: ops, ecall_number, ecall_number_is_runtime_input: runtime_number, in_text });
     }
+    // interrupt handler installation reached only by a jump: the csr write stands behind a label,
+    // the instruction written above it is a known exit (so nothing falls into it), and every jump
+    // to that label comes straight after `la R, L` with the same L
+    for i in 1..p.instrs.len() {
+        let ins = &p.instrs[i];
+        if !matches!(ins.mnemonic.as_str(), "csrrw" | "csrw") || !ins.operands.iter().any(|o| o == "utvec" || o == "5") {
+            continue;
+        }
+        let above = &p.instrs[i - 1];
+        let above_is_exit = above.flow == Flow::Ecall && matches!(above.ecall_number, Some(10 | 93)) && !above.ecall_number_is_runtime_input;
+        if !above_is_exit {
+            continue;
+        }
+        let my_labels: Vec<&String> = p.labels.iter().filter(|(_, at)| *at == i).map(|(l, _)| l).collect();
+        let mut sources: Vec<Option<String>> = Vec::new();
+        for (k, j) in p.instrs.iter().enumerate() {
+            let target = match &j.flow {
+                Flow::Jump(t) | Flow::Call(t) => Some(t),
+                Flow::Branch { target, .. } => Some(target),
+                _ => None,
+            };
+            if target.is_some_and(|t| my_labels.contains(&t)) {
+                let from_la = matches!(j.flow, Flow::Jump(_)) && j.mnemonic != "jal" && k > 0 && {
+                    let la = &p.instrs[k - 1];
+                    la.mnemonic == "la" && la.operands.len() == 2 && ins.operands.iter().any(|o| *o == la.operands[0])
+                };
+                sources.push(if from_la { Some(p.instrs[k - 1].operands[1].clone()) } else { None });
+            }
+        }
+        if let Some(Some(first)) = sources.first().cloned() {
+            if sources.iter().all(|s| s.as_ref() == Some(&first)) && !p.handler_labels.contains(&first) {
+                p.handler_labels.push(first);
+            }
+        }
+    }
     // labels at the very end name nothing
     p
 }
@@ -221,7 +256,8 @@ impl RefProgram {
 
     pub fn called_labels(&self) -> Vec<String> {
         let mut v: Vec<String> = self.instrs.iter().filter_map(|x| if let Flow::Call(l) = &x.flow { Some(l.clone()) } else { None }).collect();
-        v.extend(self.handler_labels.iter().cloned());
+        // a handler label that names no instruction (a label at the very end) installs nothing
+        v.extend(self.handler_labels.iter().filter(|h| self.target(h).is_some()).cloned());
         v.sort();
         v.dedup();
         v
